@@ -177,10 +177,15 @@ def reexportCandidate (s : St) (origin : Name) (t : Nat) : Option Nat :=
     | none => Names.resolveName (envOf s) t [origin]
   | none => none
 
-/-- a module is only moved into a package, never while it is being processed, never a root -/
+/-- a module is only moved into a package, never while it is being processed, never a root, and
+never into itself or one of its own sub-packages
+(`f'{current.fullName()}.'.startswith(f'{ob.fullName()}.')`) -/
 def moveBlocked (s : St) (ctx ob : Nat) : Bool :=
   isModuleObj s.reg ob &&
-    (!isPkgObj s.reg ctx || getPs s ob == .processing || ((getObj s.reg ob).bind (·.parent)).isNone)
+    (!isPkgObj s.reg ctx || getPs s ob == .processing || ((getObj s.reg ob).bind (·.parent)).isNone ||
+      (match path s.reg ob, path s.reg ctx with
+        | some po, some pc => po.isPrefixOf pc
+        | _, _ => false))
 
 /-- `origin_module.all is not None and origin_name in origin_module.all` -/
 def listedIn (s : St) (t : Nat) (origin : Name) : Bool :=
